@@ -137,6 +137,8 @@ func c34(c *report.Check) {
 	literals := []string{
 		"127.0.0.1", "1.2.3.4", "0.0.0.0", "255.255.255.255", "10.0.0.1",
 		"::1", "::", "2001:db8::1", "2001:DB8::1", "::ffff:1.2.3.4", "::FFFF:1.2.3.4", "fe80::1",
+		// IPv6 literals with an embedded dotted quad that are not IPv4-mapped (round-12 seed)
+		"64:ff9b::10.1.2.3", "::10.1.2.3", "2001:db8::192.0.2.1",
 		// look like addresses but are not: ordinary hosts by label count
 		"1.2.3", "1.2.3.4.5", "1.2.3.256", "1.2", "1.2.3.4.example.com", "4.example.com",
 	}
